@@ -38,6 +38,21 @@ theorem set_pre_pooled (g : Graph) (s : State) (x : Proxy) (flows : Flows) (vali
       y.pre = x.pre.map fun pr => pr.force valid setAll :=
   setPrePooled_pre g s x flows valid setAll vx hx hsome
 
+/-! ### suicide prerequisites are not prerequisites of the task -/
+
+/-- what `cylc set --pre` does to a proxy (any requested prerequisites, `--pre=all` included, any xtriggers) leaves
+its suicide prerequisites exactly as they were -/
+theorem set_pre_keeps_suicide (x : Proxy) (req : List Atom) (all : Bool) (l : List String) :
+    ((x.forceSatisfy req all).forceXtrigs l).sui = x.sui :=
+  (forceXtrigs_fields (x.forceSatisfy req all) l).2.2.2.2.2
+
+/-- **`cylc set --pre` on a pooled task**, through the flow merge: the task stays in the pool with the suicide
+prerequisites it had -/
+theorem set_pre_pooled_keeps_suicide (g : Graph) (s : State) (x : Proxy) (flows : Flows) (valid : List Atom)
+    (setAll : Bool) (vx : List String) (hx : s.get? x.pt x.name = some x) :
+    ∃ y, (setPrePooled g s x flows valid setAll vx).get? x.pt x.name = some y ∧ y.sui = x.sui :=
+  setPrePooled_sui g s x flows valid setAll vx hx
+
 /-! ### xtrigger prerequisites (`cylc set --pre=xtrigger/<label>`) -/
 
 /-- the requested xtriggers that count (`vx` below) are `all` and the labels of the xtriggers that the live proxy
@@ -344,6 +359,35 @@ example : (1, "b", 1) ∈ (releaseAndSubmit (sweepQueue exG exReady)).launched :
 -- ... a prerequisite that `1/b` does not have changes nothing (hypotheses of `set_no_valid_prereq_noop`)
 example : validPrereqs exG 1 "b" ((PreSpec.some [(1, "a", "started")]).atoms exG) = [] ∧
     view (setCmd exG (init exG) (1, "b") [] (.some [(1, "a", "started")]) .default false) = view (init exG) := by decide
+
+/-- `a? => b` and `a:fail? => !b` (the recovery pattern), one cycle point -/
+def exS : Graph :=
+  { icp := 1, fcp := 1, start := 1, runahead := 1, seqs := [[1]], stopPoint := some 1,
+    tasks := [
+      { name := "a",
+        insts := [(1, { pre := [], sui := [],
+                        children := [("succeeded", [⟨"b", 1, false⟩]), ("failed", [⟨"b", 1, false⟩])],
+                        nextParentless := none })],
+        firstParentless := some 1, completion := CE.or (CE.var "succeeded") (CE.var "failed"), outputs := stdOut,
+        required := [] },
+      { name := "b",
+        insts := [(1, { pre := [{ atoms := [(⟨1, "a", "succeeded"⟩, false)], expr := none }],
+                        sui := [{ atoms := [(⟨1, "a", "failed"⟩, false)], expr := none }], children := [],
+                        nextParentless := none, validPre := [⟨1, "a", "succeeded"⟩] })],
+        firstParentless := none, completion := CE.var "succeeded", outputs := stdOut, required := ["succeeded"] }] }
+
+/-- per pooled proxy: prerequisites satisfied?, the flags of its suicide prerequisite atoms -/
+def sview (s : State) : List (Int × String × Bool × List Bool) :=
+  s.pool.map fun x => (x.pt, x.name, x.prereqsSatisfied, x.sui.flatMap fun pr => pr.atoms.map (·.2))
+
+-- `cylc set --pre=all 1/b` (not in the pool): spawned with its prerequisite satisfied, the suicide prerequisite
+-- `1/a:failed` is not; when `1/a` then succeeds `1/b` stays in the pool (and is launched)
+example : sview (setCmd exS (init exS) (1, "b") [] .all .default false) =
+      [(1, "a", true, []), (1, "b", true, [false])] := by decide
+
+example : ([Op.set [(1, "b")] [] .all .default false, .loop, .subres 1 "a" true 1, .msg 1 "a" 1 "started",
+      .msg 1 "a" 1 "succeeded", .loop].foldl (step exS) (init exS)).pool.map (fun x => (x.pt, x.name, x.status)) =
+    [(1, "b", .preparing)] := by decide
 
 /-- one task with one execution retry of a non-zero delay -/
 def exR : Graph :=
